@@ -403,6 +403,17 @@ let answer (c : cur) : string =
     let pre = List.init nt nat_of_int in
     let s = Model.run true e0 (pre @ sched @ List.concat (List.init 8 (fun _ -> pre))) in
     String.concat " " (List.map dec_of_n (Model.results s (nat_of_int nt)))
+  | "proto" | "protoc" -> let d = nat_of_int (int_of_string (next c)) in
+    let rs = (let s = next c in if s = "-" then [] else List.init (String.length s) (fun i -> s.[i] = '1')) in
+    let ws = (let s = next c in if s = "-" then [] else List.map (fun x -> nat_of_int (int_of_string x)) (String.split_on_char ',' s)) in
+    let tasks = List.map (fun t -> List.map (fun o -> let k = nat_of_int (int_of_string (String.sub o 1 (String.length o - 1))) in
+                                                   if o.[0] = 'r' then OpR k else OpW k) (String.split_on_char ',' t))
+                  (String.split_on_char '|' (next c)) in
+    let sch = next c in
+    let sched = List.init (String.length sch) (fun i -> nat_of_int (Char.code sch.[i] - 48)) in
+    let (s, _) = trun TicketLocked d rs ws tasks sched in
+    Printf.sprintf "%d %s [%s]" (int_of_nat s.p_db) (match s.p_cache with Some v -> string_of_int (int_of_nat v) | None -> "-")
+      (String.concat "," (List.map (function Some v -> string_of_int (int_of_nat v) | None -> "?") (returned s)))
   | "rebuild" -> let cfg = cfg_of (next c) in let le = n_of_dec (next c) in let es = next_velems c in
     (match rebuild_root cfg es le with Some h -> hex_of_bytes h | None -> "ERR")
   | "vaudit1" -> let cfg = cfg_of (next c) in let h1 = next_bytes c in let h2 = next_bytes c in let ep = n_of_dec (next c) in
